@@ -11,6 +11,7 @@ import (
 	"runtime/debug"
 	"runtime/metrics"
 	"sort"
+	"strconv"
 	"strings"
 	"sync"
 	"time"
@@ -324,8 +325,13 @@ func (e *exec) Exec(op string) string {
 		if err != nil {
 			return "err"
 		}
+		if pre == "-" && !encodeToReaderAgrees(ptr.Interface(), b) {
+			return "reader-mismatch b=" + hx.Hex(b)
+		}
 		e.encs = append(e.encs, encRec{r, ptr, pre != "-", b})
 		return "b=" + hx.Hex(b)
+	case "rdec":
+		return execRdec(wd, op, toks)
 	case "dec":
 		name, _ := hx.Arg(toks, "root")
 		r := wd.byName[name]
@@ -336,10 +342,10 @@ func (e *exec) Exec(op string) string {
 		bs, _ := hx.Arg(toks, "bytes")
 		in := hx.UnHex(bs)
 		wt, _ := hx.Arg(toks, "wt")
-		if r.HasMap && os.Getenv("C11_CHILD") == "" && bigCount(in) {
+		if r.HasMap && childWanted() && bigCount(in) {
 			// the known finding map-count-drives-allocation can end the process (runtime: out of memory is not a panic):
 			// inputs that may carry a large map count are executed by the same code in a child process
-			return childDec(op)
+			return workerExec(op)
 		}
 		ch := make(chan string, 1)
 		go func() {
@@ -424,6 +430,8 @@ func bigCount(in []byte) bool {
 	}
 	return false
 }
+
+func childWanted() bool { return os.Getenv("C11_CHILD") == "" }
 
 func childDec(op string) string {
 	f, err := os.CreateTemp("", "c11-child-*.txt")
@@ -514,7 +522,48 @@ func (P) Monitor(c *hx.CaseRun) []hx.Failure {
 			if !strings.HasPrefix(ans, "same") {
 				fs = append(fs, hx.Failure{Monitor: "encode_reentrant", Class: "concurrent-encodings-interfere", Site: "libs/ser/encode.go", Msg: "values encoded by several goroutines at once differ from their sequential encodings: " + ans})
 			}
+		case "rdec":
+			// reader entry points: no panic ever; allocation bounded by the limit the caller passed
+			lim, _ := hx.Arg(toks, "lim")
+			bs, _ := hx.Arg(toks, "bytes")
+			pre, _ := hx.Arg(toks, "pre")
+			in := hx.UnHex(bs)
+			r := theWorld().byName[rootOf(op)]
+			known := lim == "u" && r != nil && outermostOversize(r, pre == "1", in)
+			if strings.HasPrefix(ans, "panic") {
+				site := strings.TrimPrefix(ans, "panic ")
+				class := "reader-decode-panic:" + site
+				if known {
+					class = "unlimited-reader-outermost-size"
+				}
+				fs = append(fs, hx.Failure{Monitor: "decode_no_panic", Class: class, Site: site, Msg: "decoding from a reader panics: " + clipS(op, 300)})
+				continue
+			}
+			if strings.HasSuffix(ans, "res=alloc") {
+				bounded := false
+				if lim != "u" {
+					if n, err := strconv.ParseInt(lim, 10, 64); err == nil && n >= allocLimit {
+						bounded = true // the caller allowed that much
+					}
+				}
+				if !bounded {
+					class := "reader-decode-alloc-unbounded"
+					if known {
+						class = "unlimited-reader-outermost-size"
+					}
+					fs = append(fs, hx.Failure{Monitor: "decode_bounded_alloc", Class: class, Site: "libs/ser/decode.go:Stream.Bytes", Msg: "decode from a reader allocated > 64 MiB beyond its limit: " + clipS(op, 300)})
+				}
+			}
+			if strings.HasSuffix(ans, "res=slow") {
+				fs = append(fs, hx.Failure{Monitor: "decode_terminates", Class: "decode-slow:" + rootOf(op), Site: "libs/ser/decode.go", Msg: "decode did not return within 2 s: " + clipS(op, 300)})
+			}
+			if rt, _ := hx.Arg(toks, "rt"); rt == "1" && !(strings.HasPrefix(ans, "ok ") && lastVal != "" && equivDump(op, lastVal, ans)) {
+				fs = append(fs, hx.Failure{Monitor: "roundtrip", Class: "reader-roundtrip-differs", Site: "libs/ser", Msg: "decoding an encoding through a reader does not give the value back: " + clipS(op, 300) + " -> " + clipS(ans, 200)})
+			}
 		case "enc":
+			if strings.HasPrefix(ans, "reader-mismatch") {
+				fs = append(fs, hx.Failure{Monitor: "roundtrip", Class: "encode-to-reader-differs", Site: "libs/ser/encode.go:EncodeToReader", Msg: "EncodeToReader does not deliver the bytes of EncodeToBytes: " + clipS(op, 300)})
+			}
 			if strings.HasPrefix(ans, "panic") {
 				site := strings.TrimPrefix(ans, "panic ")
 				class := "encode-panic:" + site
